@@ -390,23 +390,13 @@ func runMachine(t *rapid.T, concurrent bool) {
 		}
 	}
 	register := func(t *rapid.T) {
-		var cand []string
-		for _, p := range routePool {
-			used := false
-			for _, r := range tb.routes {
-				if r.Pattern == p {
-					used = true
-				}
-			}
-			if !used {
-				cand = append(cand, p)
-			}
+		// a pattern may be registered again under another method: in particular the exact method after requests have
+		// already been served through the pattern's '*' route (or the other way round)
+		p := rapid.SampledFrom(routePool).Draw(t, "pattern")
+		if len(tb.routes) > 0 && rapid.IntRange(0, 2).Draw(t, "samePatternOtherMethod") == 0 {
+			p = tb.routes[rapid.IntRange(0, len(tb.routes)-1).Draw(t, "which")].Pattern
 		}
-		if len(cand) == 0 {
-			t.Skip("pool exhausted")
-		}
-		p := rapid.SampledFrom(cand).Draw(t, "pattern")
-		m := rapid.SampledFrom([]string{"GET", "GET", "*", "POST"}).Draw(t, "method")
+		m := rapid.SampledFrom([]string{"GET", "GET", "*", "POST", "PUT"}).Draw(t, "method")
 		r, ok := rm.NewRoute(p, m)
 		if !ok {
 			t.Fatalf("pool route invalid: %s", p)
